@@ -2,7 +2,7 @@
 # tools/benign_try.sh <patch file> <tag> <tier> <check ids...> : run checks against a property-PRESERVING change on a
 # scratch worktree; every exit other than 0 is a false alarm (or an inconclusive run) to be looked at.
 patch=$1; tag=$2; tier=$3; shift 3
-wt=/tmp/wt/ben-$tag
+wt=/tmp/wt/ben-$tag; rm -rf /tmp/wt/rp-ben-$tag
 git -C /repo worktree remove --force $wt >/dev/null 2>&1
 git -C /repo worktree add -q $wt HEAD && git -C $wt apply $patch || exit 2
 for c in "$@"; do
